@@ -166,7 +166,7 @@ def main(tier, replay, t0):
                     derived_agree += 1
         # model cross-check: the generator's by-construction use sets vs naga's analysis
         uses = r.get("facts", {}).get("uses", {})
-        reach = c.spec.reach()
+        reach = c.spec.reach(naga_view=True)
         for e in c.spec.entries:
             nu = set(uses.get("%s:%s" % (e.stage, e.name), []))
             mine = {g for g in reach[e.name]}
